@@ -1419,6 +1419,27 @@ mut("C04", "unmatched-redirect-word-dropped", "R04-9|parsers::parser_line::token
 
     if to_be_continued {"""))
 
+mut("C02", "child-keeps-sigquit-ignored", "R02-9|core::run_single_program|child-resets|SIGQUIT",
+    "the child no longer resets SIGQUIT: Ctrl-\\ cannot end a job",
+    ("src/core.rs", "                libc::signal(libc::SIGQUIT, libc::SIG_DFL);\n", ""))
+mut("C07", "child-keeps-sigtstp-ignored", "R07-11|core::run_single_program|child-resets|SIGTSTP",
+    "the child no longer resets SIGTSTP: Ctrl-Z does nothing",
+    ("src/core.rs", "                libc::signal(libc::SIGTSTP, libc::SIG_DFL);\n", ""))
+mut("C04", "redirect-loop-takes-two", "R04-10|core::run_single_program|take",
+    "only the first two redirections of a command are applied",
+    ("src/core.rs", "            for item in &cmd.redirects_to {", "            for item in cmd.redirects_to.iter().take(2) {"))
+mut("C17", "alias-plain-word-shortcut", "R17-7|shell::expand_alias|retokenized",
+    "a value without blanks replaces the word without being tokenized",
+    ("src/shell.rs", """        let linfo = parsers::parser_line::parse_line(text);
+        let tokens_ = linfo.tokens;
+        tokens.remove(*i);""", """        if !text.contains(' ') {
+            tokens[*i].1 = text.clone();
+            continue;
+        }
+        let linfo = parsers::parser_line::parse_line(text);
+        let tokens_ = linfo.tokens;
+        tokens.remove(*i);"""))
+
 # ------------------------------------------------------------------ more refactors
 ref("history-params-vec", ["C18"], "bind the INSERT parameters through a params! style slice",
     (H, "    match conn.execute(&sql, [line.trim(), info.as_str()]) {",
@@ -1555,4 +1576,17 @@ ref("word-start-nested-quote-if", ["C20", "C05"], "escaped_word_start: the quote
                 with_quote = true;
             }
         }
+"""))
+
+
+ref("all-stopped-functional", ["C06", "C07"], "all_members_stopped written with iter().all()",
+    ("src/types.rs", """        for pid in &self.pids {
+            if !self.pids_stopped.contains(pid) {
+                return false;
+            }
+        }
+        true
+    }
+""", """        self.pids.iter().all(|pid| self.pids_stopped.contains(pid))
+    }
 """))
